@@ -11,6 +11,18 @@ pub struct PropMeta {
     pub expected_reach: &'static [&'static str],
 }
 
+/// supplementary runs per tier (quick, thorough): run indices from `run::SUPP_BASE` on, fault-free profile, carrying the
+/// additions of round 9 (DESIGN section 19) without changing any ordinary run
+pub fn supp_runs(prop: usize) -> (u64, u64) {
+    match prop {
+        8 => (600, 12000),
+        13 => (600, 12000),
+        14 => (1200, 24000),
+        19 => (2400, 48000),
+        _ => (0, 0),
+    }
+}
+
 pub const CLAIMED: &[usize] = &[1, 2, 3, 4, 5, 6, 7, 8, 9, 10, 11, 12, 13, 14, 17, 18, 19];
 
 const STUB: &[&str] = &[
